@@ -398,6 +398,18 @@ def unjson(c):
     return dict(c, ops=ops)
 
 
+def _budget_exhausted(ctx, t0, n):
+    """a broken tree can make every history slow (leaks, lock waits): stop generating in time
+    and judge what was run"""
+    import time
+
+    limit = 70 if ctx.tier == "quick" else 650
+    if time.time() - t0 > limit:
+        ctx.assumptions.append("time budget reached after %d cases; remaining generated cases not run" % n)
+        return True
+    return False
+
+
 def run(ctx, deep=False):
     ctx.rule = (
         "histories of add (pending object with a region) / set / delete / flush / query [filter] [explicit shard list] / get [token] on a real "
@@ -405,8 +417,13 @@ def run(ctx, deep=False):
         "random (seeded) + all 3-op sequences over a 12-letter alphabet x 2 identity orders after a prefix that puts one pk into both shards (10% quick, "
         "all thorough); non-trivial = at least one flush wrote a row"
     )
+    import time
+
+    t0 = time.time()
     cases, impl_out, reqs = [], [], []
     for case in gen_cases(ctx, deep):
+        if _budget_exhausted(ctx, t0, len(cases)):
+            break
         line, problems = run_history(case)
         jc = jsonable(case)
         ctx.case(jc, nontrivial=("=" in line.split("|")[-1]))
